@@ -127,6 +127,9 @@ func (x *Exec) doCallVals(p *Path, site ssa.Instruction, cc *ssa.CallCommon, fnv
 	}
 	if sc := cc.StaticCallee(); sc != nil && len(args) > 0 {
 		x.extsyncCheck(p, sc, args[0])
+	} else if cc.IsInvoke() {
+		// a mutator called through an interface type declared externally synchronised (e.g. roundrobin.Meter)
+		x.extsyncCheckNamed(p, typeKey(cc.Value.Type()), cc.Method.Name(), fnv)
 	}
 	if len(p.frames) == 1 && x.fc != nil && len(x.fc.AfterCalls) > 0 {
 		for ck, cls := range x.fc.AfterCalls {
@@ -1657,12 +1660,17 @@ func (x *Exec) extsyncCheck(p *Path, callee *ssa.Function, recv Val) {
 	if sig.Recv() == nil {
 		return
 	}
-	tk := typeKey(sig.Recv().Type())
+	x.extsyncCheckNamed(p, typeKey(sig.Recv().Type()), callee.Name(), recv)
+}
+
+// extsyncCheckNamed: method `method` of the externally synchronised type tk is called on recv.
+func (x *Exec) extsyncCheckNamed(p *Path, tk, method string, recv Val) {
 	tc := x.e.cs.Types[tk]
-	if tc == nil || !tc.ExtSync || !tc.Mutators[callee.Name()] {
+	if tc == nil || !tc.ExtSync || !tc.Mutators[method] {
 		return
 	}
-	name := "extsync:" + callee.Name()
+	calleeName := method
+	name := "extsync:" + method
 	if recv.K == KScalar && x.isFreshObj(p, recv.S) {
 		return
 	}
@@ -1686,7 +1694,7 @@ func (x *Exec) extsyncCheck(p *Path, callee *ssa.Function, recv Val) {
 			x.oblige(p, "guard", name, "true", []string{"C09"}, "receiver is a parameter: the caller synchronises")
 			return
 		}
-		x.oblige(p, "guard", name, "false", []string{"C09"}, "mutator "+callee.Name()+" called on an externally synchronised "+shortTypeKey(tk)+" of unknown provenance")
+		x.oblige(p, "guard", name, "false", []string{"C09"}, "mutator "+calleeName+" called on an externally synchronised "+shortTypeKey(tk)+" of unknown provenance")
 		return
 	}
 	otc := x.e.cs.Types[recv.Own.TKey]
@@ -1699,14 +1707,14 @@ func (x *Exec) extsyncCheck(p *Path, callee *ssa.Function, recv Val) {
 		}
 	}
 	if !ok {
-		x.oblige(p, "guard", name, "false", []string{"C09"}, "mutator "+callee.Name()+" called on "+shortTypeKey(recv.Own.TKey)+"."+recv.Own.Field+" ("+shortTypeKey(tk)+", externally synchronised) which no lock guards")
+		x.oblige(p, "guard", name, "false", []string{"C09"}, "mutator "+calleeName+" called on "+shortTypeKey(recv.Own.TKey)+"."+recv.Own.Field+" ("+shortTypeKey(tk)+", externally synchronised) which no lock guards")
 		return
 	}
 	if x.isFreshObj(p, recv.Own.Obj) {
 		x.oblige(p, "guard", name, "true", []string{"C09"}, "the owning object was created by this activation")
 		return
 	}
-	x.lockCheck(p, recv.Own.TKey, mu, recv.Own.Obj, recv.Own.Field+"."+callee.Name()+"()", true)
+	x.lockCheck(p, recv.Own.TKey, mu, recv.Own.Obj, recv.Own.Field+"."+calleeName+"()", true)
 }
 
 // frameGoalAt: like frameGoal, for the single object obj.
